@@ -40,6 +40,17 @@ class Engine(Executor):
         res = self.fresh_of_annotation(ann, "ret_%s_%d" % (name.replace(".", "_"), len(self.obligations)), s, node) if ann else Z(V.VNone)
         env["result"] = res
         self.assumptions.add("assumed external contract: %s (%s)" % (c.target, c.notes or "library call"))
+        form = c.opts.get("call_form")
+        if form and not self.in_spec:
+            # K5: the assumed contract describes ONE way of calling the library function (what the call does with other
+            # arguments -- e.g. copy2(..., follow_symlinks=False) copying the link instead of the bytes -- it does not cover)
+            ok = T(len(args) == form.get("nargs", len(args)) and set(kwargs) <= set(form.get("keywords", {})))
+            for k_, v_ in kwargs.items():
+                want = form.get("keywords", {}).get(k_)          # a keyword is accepted with the one value the contract was written for
+                if want is not None:
+                    ok = z3.And(ok, self.to_z(v_, s, node).t == V.mk(want)) if isinstance(v_, (Z, RefV)) else T(False)
+            self.prove(s, ok, "K5", node, "call-pre of %s: called as %s" % (name, form.get("text", "the form its assumed contract covers")),
+                       clause="call_form")
         out = []
         if not self.in_spec:
             for cls in c.raises:
@@ -434,6 +445,10 @@ class Engine(Executor):
             if isinstance(ev, PyTuple) and ev.items and self.concrete_str(ev.items[0]) == name:
                 return [(s, ev)]
         return [(s, PyTuple([Z(V.mk(name), "str")]))]
+
+    def bi_looped(self, args, kwargs, s, node):
+        """looped(key): this path ran through the loop `key`, which its contract declares the only yielder."""
+        return [(s, Z(V.mk(self.concrete_str(args[0]) in s.flags.get("looped", ())), "bool"))]
 
     def bi_called(self, args, kwargs, s, node):
         name = self.concrete_str(args[0])
@@ -1094,7 +1109,7 @@ class Engine(Executor):
                     box.version = getattr(box, "version", 0) + 1
         env2["result"] = res
         for en in c.ensures:
-            if fi.is_generator and any(isinstance(n_, ast.Name) and n_.id == "out" for n_ in ast.walk(ast.parse(en, mode="eval"))):
+            if fi.is_generator and any(isinstance(n_, ast.Name) and n_.id in ("out", "looped") for n_ in ast.walk(ast.parse(en, mode="eval"))):
                 continue          # a clause over the whole sequence of yields: the consuming loop sees one abstract element at a time
             nxt = []
             for st in states:
@@ -1518,6 +1533,16 @@ class Engine(Executor):
             e2["iters"] = Z(V.VInt(val), "int")
             e2.update(loop_ghost)
             return e2
+        sole = bool(spec.get("sole_yielder"))
+        if sole:
+            # K2: on a path through this loop, every value the generator yields is yielded by one of its iterations
+            # (what an iteration yields is pinned down by the per-iteration post-conditions)
+            self.prove(st, T(not st.out), "K2", stmt, "nothing is yielded before the loop %r (declared the only yielder on its paths)" % key,
+                       clause="sole_yielder:entry")
+            st = st.fork()
+            st.out = []
+            st.flags = dict(st.flags)
+            st.flags["looped"] = tuple(st.flags.get("looped", ())) + (key,)
         # K4 (establish)
         for inv in invs:
             for (s2, b) in self.eval_clause(inv, st.fork(), with_iters(st.env, z3.IntVal(0)), stmt):
@@ -1541,7 +1566,7 @@ class Engine(Executor):
             for n in dropped:
                 if isinstance(body.env.get(n), Z):
                     body.env[n] = Z(body.env[n].t)          # no static hint for a variable whose type is not stable
-            if st.out or has_yield:
+            if st.out or has_yield or sole:
                 body.out = [("havoc", tag)]
             body.ghost = dict(body.ghost)
             body.ghost["events"] = []
@@ -1595,7 +1620,7 @@ class Engine(Executor):
                                 env_e["returned"] = oc[1] if (oc is not None and oc[0] == "return" and oc[1] is not None) else Z(V.VNone)
                                 for be in body_ens:
                                     for (s3, b) in self.eval_clause(be, s2.fork(), env_e, stmt):
-                                        self.prove(s3, b, "K2", stmt, "iteration post-condition: %s" % be, clause="iter:" + be)
+                                        _ob = self.prove(s3, b, "K2", stmt, "iteration post-condition: %s" % be, clause="iter:" + be)
                         if ends_iteration:
                             for n in new_names:
                                 v = s2.env.get(n)
@@ -1618,8 +1643,12 @@ class Engine(Executor):
                                     self.prove(s3, b, "K4", stmt, "invariant preserved by the loop body: %s" % inv, clause="step:" + inv)
                         elif oc[0] == "break":
                             s2.ghost = dict(st.ghost)
+                            if sole:
+                                s2.out = [("havoc", tag)]       # this iteration's yields were judged by the clauses above
                             results.append((s2, None))
                         else:
+                            if sole and oc[0] == "return":
+                                s2.out = [("havoc", tag)]
                             results.append((s2, oc))
             if bad - dropped:
                 # Houdini: drop the failing annotation-derived candidates and redo the loop
@@ -1650,7 +1679,7 @@ class Engine(Executor):
                 fin.assume(mk(fin.env[n].t))
             elif isinstance(fin.env.get(n), Z):
                 fin.env[n] = Z(fin.env[n].t)
-        if st.out or has_yield:
+        if st.out or has_yield or sole:
             fin.out = [("havoc", tag)]
         fins = [fin]
         for inv in invs:
@@ -1836,6 +1865,11 @@ class Engine(Executor):
                 if a.kwarg is not None and isinstance(entry.get(a.kwarg.arg), tuple):
                     for k_, v_ in s.flags.get("entry_kwargs", {}).items():
                         env2["kw_" + k_] = v_
+                if fi.is_generator and s.flags.get("looped"):
+                    # a loop declared the only yielder was passed: nothing may have been yielded after it either
+                    self.prove(s, T(len(s.out) == 1 and s.out[0][0] == "havoc"), "K2", self.ret_node(oc, fi),
+                               "nothing is yielded after the loop %r (declared the only yielder on its paths)" % (s.flags["looped"][-1],),
+                               clause="sole_yielder:exit")
                 if fi.is_generator:
                     env2["out"] = PyTuple([v for (v, _ln) in s.out if not isinstance(v, str)]) if not any(v == "havoc" for (v, _l) in s.out) else None
                 if c.opts.get("returns") and isinstance(res, Z):
